@@ -32,13 +32,13 @@ struct Plan {
 
 inline gen::Profile pick_profile(const std::string& prop, Rng& r) {
     if (prop == "C01") return r.chance(1, 8) ? gen::P_BIG : r.chance(1, 5) ? gen::P_ROTATE : gen::P_GENERAL;
-    if (prop == "C02") return r.chance(1, 2) ? gen::P_EMPTY : r.chance(1, 2) ? gen::P_ROTATE : gen::P_GENERAL;
+    if (prop == "C02") return r.chance(1, 600) ? gen::P_LONG : r.chance(1, 2) ? gen::P_EMPTY : r.chance(1, 2) ? gen::P_ROTATE : gen::P_GENERAL;
     if (prop == "C04") return gen::P_HINTS;
     if (prop == "C09") return gen::P_PREAMBLE;
     if (prop == "C10") return r.chance(1, 2) ? gen::P_ROTATE : r.chance(1, 4) ? gen::P_EMPTY : r.chance(1, 4) ? gen::P_BIG : gen::P_GENERAL;
     if (prop == "C11") return gen::P_TABLES;
     if (prop == "C12") return gen::P_FLUSH;
-    if (prop == "C13") return gen::P_ROTATE;
+    if (prop == "C13") return r.chance(1, 400) ? gen::P_LONG : gen::P_ROTATE;
     if (prop == "C14") return r.chance(1, 3) ? gen::P_BIG : gen::P_ROTATE;
     if (prop == "C15") return gen::P_CRASH;
     if (prop == "C16") return gen::P_FAULT;
@@ -214,6 +214,7 @@ struct Pipeline {
             return;
         }
         if (keep_plains) plains.push_back(plain);
+        if (mo.blocks.size() > 65536) cx.ctr->add("probe.output_with_more_than_65536_blocks");
         if (plain.size() > 65535) cx.ctr->add("probe.output_over_one_decoder_window");
         if (plain.size() > 131070) cx.ctr->add("probe.output_over_two_decoder_windows");
         // independent reader
@@ -758,6 +759,17 @@ struct Pipeline {
     void finish() {
         // destruction closes the last output
         cx.log.ev("DESTROY");
+        if (plan.sw.destroy_by_unwinding) {
+            // the application leaves the scope that owns the exporter by an exception of its own: the destruction chain runs while
+            // std::uncaught_exception() is true
+            cx.tag("destroyed-by-unwinding");
+            cx.ctr->add("probe.destroyed_by_stack_unwinding");
+            struct AppError {};
+            try {
+                std::unique_ptr<CDNS::CdnsExporter> local = std::move(ex);
+                throw AppError();
+            } catch (AppError&) {}
+        }
         ex.reset();
         close_model_output(true);
         if (M.cur.items() > 0) cx.ctr->add("probe.destroyed_with_pending_block");
